@@ -137,6 +137,7 @@ def run_name(P, res, payload):
                 m = ctx.model(z3.Not(same) if is_sym(same) else z3.BoolVal(True))
                 res.violations.append({'what': 'accepted command does not consist of the name bytes',
                                        'input': {'kind': 'name', 'name': hexs(model_bytes(m, items))}})
+        res.xval_path('name ' + r.variant, replay, lambda: {'kind': 'name', 'name': hexs(model_bytes(ctx.model(), items))})
         if len(res.samples) < 2:
             m = ctx.model()
             res.samples.append({'name': model_bytes(m, items).decode('latin1'), 'result': r.variant})
@@ -205,6 +206,10 @@ def run_seq(P, res, payload):
             res.violations.append({'what': 'the command does not occupy exactly one LF-terminated line',
                                    'input': {'kind': 'seq', 'calls': [[hexs(model_bytes(m, c)) for c in rd2.calls] for (_, rd2, _, _) in steps]}})
         res.cls('seq ' + '/'.join(sig), nontrivial='Err' in sig)
+        def mk():
+            m = ctx.model()
+            return {'kind': 'seq', 'calls': [[hexs(model_bytes(m, c)) for c in rd2.calls] for (_, rd2, _, _) in steps]}
+        res.xval_path('seq ' + '/'.join(sig), replay, mk)
         if len(res.samples) < 2:
             m = ctx.model()
             res.samples.append({'calls': [[model_bytes(m, c).decode('latin1') for c in rd.calls] for (_, rd, _, _) in steps], 'verdicts': sig,
